@@ -116,6 +116,20 @@ def run(tier, seed, replay):
             rep.sample(s)
         for k, v in r["c"].items():
             rep.count("hist." + k, v)
+    # 1b. malformed-token generator classes of C06 (bit 31 of the mask = some checker returned non-zero with a clear error flag)
+    from checks import c06
+    from monitors import token_class
+    b6 = vf.driver("d_c06", "asan")
+    gouts, crashes = vf.run_shards(b6, ["--mode", "gen", "--n", 200000 if tier == "thorough" else 20000, "--seed", seed], vf.NCPU, rd, tag="tok", timeout=3000)
+    rep.crash_violations(crashes, prefix="tokens:")
+    for ev in vf.read_jsonl(gouts):
+        if ev[0] == "STATS":
+            rep.evaluations += ev[2]; rep.count("tokens.verify_calls", ev[2])
+        elif ev[0] == "T" and ev[2] & (1 << 31):
+            tok = bytes.fromhex(ev[3])
+            verdict, why = token_class.classify(tok)
+            rep.violation("verify:fails-without-error-flag:token-class:%s:%s" % (c06.GEN[ev[1]] if ev[1] < 20 else "corpus", why),
+                          "jwt_checker_verify returned non-zero with a clear error flag", dict(token=tok[:300].decode("latin-1"), classifier=[verdict, why]))
     # 2. policy matrix
     b = vf.driver("d_policy", "asan")
     spec = ("prov=0,1;route=0,1,2,3;cfg=0,1,4,7,10,14,15;keys=none,oct:64,oct:16,rsa:2048,rsa:1024,ec:P-256,okp:Ed25519;kalg=-1,0,1,4,7,14,15;pub=0,1;"
